@@ -234,6 +234,8 @@ Record Rq (s : state) (st : sstate) : Prop := mkRq {
   q_faults : faults s = [];
   q_cfg : forall o, o_proc (objs s o) = 0 /\ o_reent (objs s o) = reent o /\ o_dflt (objs s o) = dflt o;
   q_kern : (forall h, holder s = Some h -> h < nextfd s) /\ (forall d q, fdown s d = Some q -> d < nextfd s);
+  q_fds : forall d q, fdown s d = Some q -> holder s = Some d;     (* no descriptor is open except the holder's *)
+  q_hopen : forall h, holder s = Some h -> fdown s h <> None;
   q_abs : match st with
           | None => holder s = None /\ forall o, pristine (objs s o)
           | Some (o, t, d) =>
@@ -267,6 +269,8 @@ Lemma Rq_frame s s' st st' t o pend h :
   t_pc (thr s' t) = PIdle -> t_proc (thr s' t) = 0 ->
   o_proc (objs s' o) = 0 /\ o_reent (objs s' o) = reent o /\ o_dflt (objs s' o) = dflt o ->
   (forall hh, h = Some hh -> hh < nextfd s') ->
+  (forall d q, fdown s' d = Some q -> h = Some d) ->
+  (forall hh, h = Some hh -> fdown s' hh <> None) ->
   match st' with
   | None => h = None /\ forall o', pristine (objs s' o')
   | Some (o1, t1, d1) =>
@@ -277,7 +281,7 @@ Lemma Rq_frame s s' st st' t o pend h :
   end ->
   Rq s' st'.
 Proof.
-  intros [Qt Qd Qf Qc [Qk1 Qk2] Qa] F Hpc Hpr Hcfg Hh Habs.
+  intros [Qt Qd Qf Qc [Qk1 Qk2] Qfd Qho Qa] F Hpc Hpr Hcfg Hh Hfds Hhop Habs.
   constructor.
   - intros t'. destruct (Nat.eq_dec t' t) as [->|Hn]; [auto|]. rewrite (f_thr _ _ _ _ _ _ F) by auto. apply Qt.
   - intros p. rewrite (f_dead _ _ _ _ _ _ F). apply Qd.
@@ -291,8 +295,25 @@ Proof.
         -- destruct (Nat.eq_dec d dp) as [->|Hn]; [apply (f_pend _ _ _ _ _ _ F dp eq_refl)|].
            rewrite (f_fd_new _ _ _ _ _ _ F) in E by (auto; congruence). discriminate.
         -- rewrite (f_fd_new _ _ _ _ _ _ F) in E by (auto; discriminate). discriminate.
+  - intros d q E. rewrite (f_holder _ _ _ _ _ _ F). eauto.
+  - intros hh E. apply Hhop. rewrite <- E. symmetry. apply (f_holder _ _ _ _ _ _ F).
   - rewrite (f_holder _ _ _ _ _ _ F). exact Habs.
 Qed.
+
+Lemma frame_fds_none s t o s' h :
+  Frame s t o s' None h -> (forall d q, fdown s d = Some q -> holder s = Some d) ->
+  forall d q, fdown s' d = Some q -> holder s = Some d.
+Proof.
+  intros F Q d q E. destruct (Nat.lt_ge_cases d (nextfd s)) as [L|G].
+  - rewrite (f_fd_old _ _ _ _ _ _ F) in E by auto. eauto.
+  - rewrite (f_fd_new _ _ _ _ _ _ F) in E by (auto; discriminate). discriminate.
+Qed.
+
+Lemma frame_hopen_none s t o s' :
+  Frame s t o s' None (holder s) -> (forall h, holder s = Some h -> h < nextfd s) ->
+  (forall h, holder s = Some h -> fdown s h <> None) ->
+  forall hh, holder s = Some hh -> fdown s' hh <> None.
+Proof. intros F K Q hh E. rewrite (f_fd_old _ _ _ _ _ _ F) by auto. auto. Qed.
 
 Lemma fail_result_not_true m : fail_result m <> RTrue /\ fail_result m <> RWouldBlock.
 Proof. destruct m; split; discriminate. Qed.
@@ -306,7 +327,7 @@ Theorem acq_refines s st t o m blk tm poll skip fuel :
   snd res = (if snd sp then RTrue else spec_no (dflt o) m blk tm) /\
   (snd res <> RWouldBlock -> Rq (fst res) (fst sp)).
 Proof.
-  intros Q tm' Hp Hfu res sp. pose proof Q as [Qt Qd Qf Qc [Qk1 Qk2] Qa].
+  intros Q tm' Hp Hfu res sp. pose proof Q as [Qt Qd Qf Qc [Qk1 Qk2] Qfd Qho Qa].
   destruct (Qt t) as [Hpc Hpr]. destruct (Qc o) as (Co1 & Co2 & Co3).
   assert (Hal : dead s (t_proc (thr s t)) = false) by apply Qd.
   assert (Hpro : o_proc (objs s o) = t_proc (thr s t)) by congruence.
@@ -352,11 +373,13 @@ Proof.
       destruct (proj1 (tl_try_held _ t t1 Ow) Htry) as [Re ->]. rewrite Co2 in Re.
       rewrite Esp, Nat.eqb_refl, Re. cbn [andb fst snd]. split; [exact E|]. intros _.
       destruct Qa as (D1 & D2 & (fd & F1 & F2) & D3 & D4 & D5 & D6).
-      refine (Rq_frame s (fst res) _ _ _ _ _ _ Q F _ _ _ _ _).
+      refine (Rq_frame s (fst res) _ _ _ _ _ _ Q F _ _ _ _ _ _ _).
       * now rewrite Ht.
       * rewrite Ht. cbn. congruence.
       * rewrite Ho. cbn. auto.
       * intros hh Eh. pose proof (f_next _ _ _ _ _ _ F). apply Qk1 in Eh. lia.
+      * apply (frame_fds_none _ _ _ _ _ F Qfd).
+      * apply (frame_hopen_none _ _ _ _ F Qk1 Qho).
       * rewrite Ho. cbn. rewrite Ow, F1, Cn, Dp. split; [lia|]. split; [intros Z; congruence|].
         split; [exists fd; auto|]. split; [auto|]. split; [auto|]. split; [auto|].
         intros o' Hn. rewrite (f_obj _ _ _ _ _ _ F) by auto. apply D6; auto.
@@ -366,11 +389,16 @@ Proof.
       destruct st as [[[o1 t1] d1]|]; [destruct Hst as (A & _); congruence|].
       destruct Hst as ((_ & Ow & Cn & Dp) & _ & Esp). rewrite Esp. cbn [fst snd]. split; [exact E|]. intros _.
       destruct Qa as [_ Pr].
-      refine (Rq_frame s (fst res) _ _ _ _ _ _ Q F _ _ _ _ _).
+      refine (Rq_frame s (fst res) _ _ _ _ _ _ Q F _ _ _ _ _ _ _).
       * now rewrite Ht.
       * rewrite Ht. cbn. congruence.
       * rewrite Ho. cbn. auto.
       * intros hh [= <-]. apply (f_pend _ _ _ _ _ _ F d eq_refl).
+      * intros d' q E'. destruct (Nat.lt_ge_cases d' (nextfd s)) as [L|G].
+        -- rewrite (f_fd_old _ _ _ _ _ _ F) in E' by auto. apply Qfd in E'. congruence.
+        -- destruct (Nat.eq_dec d' d) as [->|Hn]; auto.
+           rewrite (f_fd_new _ _ _ _ _ _ F) in E' by (auto; congruence). discriminate.
+      * intros hh [= <-]. destruct (f_pend _ _ _ _ _ _ F d eq_refl) as [_ A]. rewrite A. discriminate.
       * rewrite Ho. cbn. rewrite Ow, Cn. split; [lia|]. split; [auto|].
         split; [exists d; auto|]. split; [auto|]. split; [auto|]. split; [auto|].
         intros o' Hn. rewrite (f_obj _ _ _ _ _ _ F) by auto. apply Pr.
@@ -382,11 +410,13 @@ Proof.
         exfalso. apply (proj2 (tl_try_held _ t1 t1 Ow)); auto; try (split; auto; congruence). }
       rewrite Esp. cbn [fst snd]. split.
       * rewrite E. destruct Hb as [->|[T ->]]; [reflexivity|]. now rewrite andb_false_r.
-      * intros _. refine (Rq_frame s (fst res) _ _ _ _ _ _ Q F _ _ _ _ _).
+      * intros _. refine (Rq_frame s (fst res) _ _ _ _ _ _ Q F _ _ _ _ _ _ _).
         -- now rewrite Ht.
         -- rewrite Ht. cbn. congruence.
         -- rewrite Ho. auto.
         -- intros hh Eh. pose proof (f_next _ _ _ _ _ _ F). apply Qk1 in Eh. lia.
+        -- apply (frame_fds_none _ _ _ _ _ F Qfd).
+        -- apply (frame_hopen_none _ _ _ _ F Qk1 Qho).
         -- destruct st as [[[o1 t1] d1]|].
            ++ destruct Qa as (D1 & D2 & (fd & F1 & F2) & D3 & D4 & D5 & D6).
               assert (Hob : forall o', objs (fst res) o' = objs s o').
@@ -410,11 +440,13 @@ Proof.
           - destruct Pr as (_ & A & _). intros u Z. congruence. }
         assert (Hob : forall o', objs (fst res) o' = objs s o').
         { intros o'. destruct (Nat.eq_dec o' o) as [->|Hn]; auto. apply (f_obj _ _ _ _ _ _ F); auto. }
-        refine (Rq_frame s (fst res) _ _ _ _ _ _ Q F _ _ _ _ _).
+        refine (Rq_frame s (fst res) _ _ _ _ _ _ Q F _ _ _ _ _ _ _).
         -- now rewrite Ht.
         -- rewrite Ht. cbn. congruence.
         -- rewrite Ho'. auto.
         -- intros hh Eh. pose proof (f_next _ _ _ _ _ _ F). apply Qk1 in Eh. lia.
+        -- apply (frame_fds_none _ _ _ _ _ F Qfd).
+        -- apply (frame_hopen_none _ _ _ _ F Qk1 Qho).
         -- destruct st as [[[o1 t1] d1]|].
            ++ destruct Qa as (D1 & D2 & (fd & F1 & F2) & D3 & D4 & D5 & D6).
               rewrite !Hob. split; [auto|]. split; [auto|]. split; [exists fd; auto|]. split; [auto|]. split; [auto|]. split; [auto|].
@@ -427,7 +459,7 @@ Theorem rel_refines s st t o force fuel :
   let res := do_call fuel s t (CRel o force) in
   snd res = RNone /\ Rq (fst res) (spec_release st o force).
 Proof.
-  intros Q Hc Hfu res. pose proof Q as [Qt Qd Qf Qc [Qk1 Qk2] Qa].
+  intros Q Hc Hfu res. pose proof Q as [Qt Qd Qf Qc [Qk1 Qk2] Qfd Qho Qa].
   destruct (Qt t) as [Hpc Hpr]. destruct (Qc o) as (Co1 & Co2 & Co3).
   assert (Hal : dead s (t_proc (thr s t)) = false) by apply Qd.
   assert (Hcnt : o_cnt (objs s o) <= depth st).
@@ -440,6 +472,8 @@ Proof.
   assert (Hgen : forall st',
      (forall hh, holder s1 = Some hh -> hh < nextfd s1) ->
      (forall d q, fdown s1 d = Some q -> d < nextfd s1) ->
+     (forall d q, fdown s1 d = Some q -> holder s1 = Some d) ->
+     (forall hh, holder s1 = Some hh -> fdown s1 hh <> None) ->
      o_proc (objs s1 o) = 0 /\ o_reent (objs s1 o) = reent o /\ o_dflt (objs s1 o) = dflt o ->
      match st' with
      | None => holder s1 = None /\ forall o', pristine (objs s1 o')
@@ -449,7 +483,7 @@ Proof.
          o_own (objs s1 o1) = Some t1 /\ o_cnt (objs s1 o1) = d1 /\ o_dep (objs s1 o1) = d1 /\
          forall o', o' <> o1 -> pristine (objs s1 o')
      end -> Rq s1 st').
-  { intros st' K1 K2 Hcfg Habs. constructor; auto.
+  { intros st' K1 K2 K3 K4 Hcfg Habs. constructor; auto.
     - intros t'. destruct (Nat.eq_dec t' t) as [->|Hn]; [split; [auto|congruence]|].
       rewrite (r_thr _ _ _ _ F) by auto. apply Qt.
     - intros p. rewrite (r_dead _ _ _ _ F). apply Qd.
@@ -468,6 +502,8 @@ Proof.
       rewrite Est. apply Hgen.
       - intros hh Z. rewrite Hnx. apply Qk1. congruence.
       - intros d q Z. rewrite Hnx. apply (Qk2 d q). congruence.
+      - intros d q Z. rewrite Ph. apply (Qfd d q). congruence.
+      - intros hh Z. rewrite Pf. apply Qho. congruence.
       - rewrite Po. auto.
       - rewrite Ph. destruct st as [[[o1 t1] d1]|]; rewrite ?Hob.
         + destruct Qa as (D1 & D2 & D3 & D4 & D5 & D6 & D7). split; [auto|]. split; [auto|]. split; [auto|]. split; [auto|]. split; [auto|]. split; [auto|].
@@ -494,6 +530,8 @@ Proof.
     apply Hgen.
     + intros hh Z. rewrite Ph, F2 in Z. unfold unl_holder in Z. rewrite Nat.eqb_refl in Z. discriminate.
     + intros d q Z. rewrite Pf in Z. destruct (Nat.eqb d fd); [discriminate|]. rewrite Hnx. apply (Qk2 d q Z).
+    + intros d q Z. rewrite Pf in Z. destruct (Nat.eqb_spec d fd); [discriminate|]. apply Qfd in Z. congruence.
+    + intros hh Z. rewrite Ph, F2 in Z. unfold unl_holder in Z. rewrite Nat.eqb_refl in Z. discriminate.
     + rewrite Po, A5, A6, A7. cbn. auto.
     + split; [rewrite Ph, F2; unfold unl_holder; now rewrite Nat.eqb_refl|].
       intros o'. destruct (Nat.eq_dec o' o) as [->|Hn].
@@ -511,6 +549,8 @@ Proof.
     apply Hgen.
     + intros hh Z. rewrite Hnx. apply Qk1. congruence.
     + intros d q Z. rewrite Hnx. apply (Qk2 d q). congruence.
+    + intros d q Z. rewrite Ph. apply (Qfd d q). congruence.
+    + intros hh Z. rewrite Pf. apply Qho. congruence.
     + rewrite Eo. cbn. auto.
     + rewrite Eo. cbn. split; [lia|]. split; [intros Z; congruence|]. split; [exists fd; split; congruence|].
       split; [auto|]. split; [auto|]. split; [auto|]. intros o' Hn. rewrite (r_obj _ _ _ _ F) by auto. apply D6; auto.
@@ -616,11 +656,39 @@ Qed.
 
 Lemma Rq_is_locked s st o : Rq s st -> is_locked s o = spec_is_locked st o.
 Proof.
-  intros [_ _ _ _ _ Qa]. unfold is_locked, spec_is_locked, held.
+  intros [_ _ _ _ _ _ _ Qa]. unfold is_locked, spec_is_locked, held.
   destruct st as [[[o1 t1] d1]|].
   - destruct Qa as (_ & _ & (fd & F1 & _) & _ & _ & _ & D6).
     destruct (Nat.eqb_spec o o1) as [->|Hn]; [now rewrite F1|]. destruct (D6 o Hn) as (-> & _). reflexivity.
   - destruct Qa as [_ B]. destruct (B o) as (-> & _). reflexivity.
+Qed.
+
+(* exactly one descriptor is open while the lock is held, none otherwise *)
+Lemma filter_seq_single (f : nat -> bool) h n :
+  h < n -> f h = true -> (forall d, d <> h -> f d = false) -> length (filter f (seq 0 n)) = 1.
+Proof.
+  intros Hh Ht Hf.
+  assert (G : forall k a, (a <= h < a + k -> length (filter f (seq a k)) = 1) /\
+                          (~ (a <= h < a + k) -> length (filter f (seq a k)) = 0)).
+  { induction k as [|k IH]; intros a; cbn [seq filter]; [split; [lia|reflexivity]|].
+    destruct (IH (S a)) as [I1 I2]. destruct (Nat.eq_dec a h) as [->|Hn].
+    - rewrite Ht. cbn [length]. split; [|lia]. intros _. rewrite I2; lia.
+    - rewrite (Hf a Hn). split; intros A; [apply I1|apply I2]; lia. }
+  apply G. lia.
+Qed.
+
+Lemma Rq_nfds s st : Rq s st -> nfds s = match st with Some _ => 1 | None => 0 end.
+Proof.
+  intros [_ _ _ _ [Qk1 Qk2] Qfd Qho Qa]. unfold nfds.
+  destruct st as [[[o1 t1] d1]|].
+  - destruct Qa as (_ & _ & (fd & _ & Hh) & _).
+    apply (filter_seq_single _ fd); auto.
+    + pose proof (Qho _ Hh). destruct (fdown s fd); congruence.
+    + intros d Hn. destruct (fdown s d) as [q|] eqn:E; auto. apply Qfd in E. congruence.
+  - destruct Qa as [Hh _].
+    assert (G : forall l, filter (fun d => match fdown s d with Some _ => true | None => false end) l = []).
+    { induction l as [|x r IH]; cbn; auto. destruct (fdown s x) as [q|] eqn:E; auto. apply Qfd in E. congruence. }
+    now rewrite G.
 Qed.
 
 End Refine.
@@ -647,6 +715,8 @@ Proof.
   - auto.
   - intros o. rewrite nth_fun_obj0. auto.
   - split; intros; discriminate.
+  - intros; discriminate.
+  - intros; discriminate.
   - split; auto. intros o. rewrite nth_fun_obj0. repeat split.
 Qed.
 
@@ -664,11 +734,14 @@ Theorem refines_rlock_spec_lemma :
     fst conc = fst spec /\
     (no_block (fst spec) = true ->
        Rq reent dflt (snd conc) (snd spec) /\
-       forall o, is_locked (snd conc) o = spec_is_locked (snd spec) o).
+       (forall o, is_locked (snd conc) o = spec_is_locked (snd spec) o) /\
+       nfds (snd conc) = match snd spec with Some _ => 1 | None => 0 end).
 Proof.
   intros nT cfg ops fuel reent dflt Hok Hfu Hd conc spec.
   destruct (refines_lemma reent dflt fuel ops _ None (Rq_init nT cfg) Hok Hfu) as [A B]; [cbn; lia|].
-  split; auto. intros Nb. specialize (B Nb). split; auto. intros o. eapply Rq_is_locked; eauto.
+  split; auto. intros Nb. specialize (B Nb). split; auto. split.
+  - intros o. eapply Rq_is_locked; eauto.
+  - eapply Rq_nfds; eauto.
 Qed.
 
 (* consequences for a single call in any state between two calls of such a sequence *)
